@@ -334,6 +334,44 @@ func (f *frame) contractCall(callee *ssa.Function, fc *FuncContract, args []SV, 
 		f.oblige(fmt.Sprintf("call.pre.%d", i+1), text, implies(and(cndF...), cndT), rq.Text, pos)
 		f.assume(and(append(cndF, cndT)...))
 	}
+	// "pure_calls F" on the function under proof: every call of F is shown to satisfy F's
+	// pure_if condition; F then neither writes nor (when its throws clause is the negation
+	// of that condition) raises here, which keeps the verification condition small.
+	if fc.PureIf != nil && e.top != nil && e.top.contract != nil && f.pureCallee(key) {
+		ctx := &evalCtx{f: f, pkg: pkg, bind: bind, heap: f.curHeap, what: "pure_if of " + key}
+		cndT, cndF := ctx.evalLocal(fc.PureIf.Text)
+		f.oblige("call.pure", text, implies(and(cndF...), cndT), fc.PureIf.Text, pos)
+		f.assume(and(append(cndF, cndT)...))
+		var res SV
+		if fc.Logical {
+			res = f.logicalApp(callee, fc, args)
+		} else {
+			res = f.resultHavoc(base, resT)
+		}
+		nb := map[string]SV{}
+		for k, v := range bind {
+			nb[k] = v
+		}
+		bindResults(nb, callee, res)
+		if len(fc.Throws) == 0 && !fc.NoThrow {
+			f.recordCallThrow(key, pos)
+		} else if !fc.NoThrow {
+			// may still raise when its throws condition holds
+			f.recordCallThrow(key, pos)
+			var cs []string
+			for _, th := range fc.Throws {
+				ctx := &evalCtx{f: f, pkg: pkg, bind: bind, heap: f.curHeap, what: "throws of " + key}
+				cs = append(cs, ctx.evalBoolText(th.Text))
+			}
+			f.throws[len(f.throws)-1].cond = and(cs...)
+		}
+		for _, en := range fc.Ensures {
+			ctx := &evalCtx{f: f, pkg: pkg, bind: nb, heap: f.curHeap, oldHeap: f.curHeap, oldBind: bind, what: "ensures of " + key}
+			f.assume(ctx.evalAssume(en.Text))
+		}
+		e.usedContracts[key] = true
+		return res
+	}
 	oldHeap := f.curHeap.clone()
 	if !fc.NoThrow && f.wantUnwind() && !f.inDeferred {
 		f.excFromCall("call "+key, pos, func() {
@@ -402,6 +440,9 @@ func (f *frame) contractCall(callee *ssa.Function, fc *FuncContract, args []SV, 
 		if cf := e.E.L.Funcs[cs.Callee]; cf != nil && cf.Signature.Results().Len() == 1 {
 			g := f.resultHavoc(base+"!ghost", cf.Signature.Results().At(0).Type())
 			nb[cs.As] = g
+		} else if rt := e.E.libResultType(cs.Callee); rt != nil {
+			g := f.resultHavoc(base+"!ghost", rt)
+			nb[cs.As] = g
 		}
 	}
 	for _, en := range fc.Ensures {
@@ -410,6 +451,15 @@ func (f *frame) contractCall(callee *ssa.Function, fc *FuncContract, args []SV, 
 	}
 	e.usedContracts[key] = true
 	return res
+}
+
+func (f *frame) pureCallee(key string) bool {
+	for _, k := range f.enc.top.contract.PureCalls {
+		if k == key {
+			return true
+		}
+	}
+	return false
 }
 
 // havocModifies: "modifies a.b, c.d" – havoc the heap arrays of the named fields.
